@@ -230,7 +230,125 @@ theorem setLeaves_spec (var : Variant) : ∀ (items : List Item) (p p' : Leaves)
               simpa [keysOf] using hk
             rw [hframe k hk'.2, hother k hk'.1]
 
-/-! ### update_pars -/
+/-! ### update_pars: invariants that do not depend on the order of the steps -/
+
+theorem keysOf_replace {β} (k : String) (v : β) : ∀ (p : List (String × β)), keysOf (replace k v p) = keysOf p
+  | [] => by simp [replace, keysOf]
+  | (k', v') :: rest => by
+      have ih := keysOf_replace k v rest
+      by_cases hk : k' = k
+      · simp [replace, keysOf, hk]
+      · simp only [keysOf] at ih
+        simp [replace, keysOf, hk, ih]
+
+theorem strictCheck_false_ok (keys newKeys : List String) (h : strictCheck false keys newKeys = .ok ()) :
+    ∀ k ∈ newKeys, k ∈ keys := by
+  intro k hk
+  by_cases hin : k ∈ keys
+  · exact hin
+  · rw [strictCheck_unknown keys newKeys ⟨k, hk, hin⟩] at h
+    cases h
+
+theorem setLeaves_keys (var : Variant) : ∀ (items : List Item) (p p' : Leaves),
+    (∀ k ∈ keysOf items, k ∈ keysOf p) → setLeaves var p items = .ok p' → keysOf p' = keysOf p
+  | [], p, p', _, h => by
+      simp only [setLeaves] at h
+      injection h with h
+      rw [h]
+  | it :: rest, p, p', hk, h => by
+      simp only [setLeaves] at h
+      cases h1 : setLeaf var p it with
+      | error e => simp [h1] at h
+      | ok p1 =>
+          simp only [h1] at h
+          have hit : it.1 ∈ keysOf p := hk it.1 (by simp [keysOf])
+          have hp1 : keysOf p1 = keysOf p := by
+            unfold setLeaf at h1
+            cases hl : lookup it.1 p with
+            | none => exact absurd hit ((lookup_none_iff it.1 p).mp hl)
+            | some s =>
+                simp only [hl] at h1
+                cases ha : applyLeaf var s it.2.1 it.2.2 with
+                | error e => simp [ha] at h1
+                | ok s' =>
+                    simp only [ha] at h1
+                    injection h1 with h1
+                    rw [← h1, keysOf_replace]
+          have := setLeaves_keys var rest p1 p' (fun k hk' => by
+            rw [hp1]; exact hk k (by simp only [keysOf, List.map_cons, List.mem_cons] at hk' ⊢; exact Or.inr hk')) h
+          rw [this, hp1]
+
+theorem updateLeaves_false_keys (var : Variant) (p p' : Leaves) (items : List Item)
+    (h : updateLeaves var false p items = .ok p') : keysOf p' = keysOf p := by
+  unfold updateLeaves at h
+  cases hs : strictCheck false (keysOf p) (keysOf items) with
+  | error e => simp [hs] at h
+  | ok u =>
+      simp only [hs] at h
+      exact setLeaves_keys var items p p' (strictCheck_false_ok _ _ (by cases u; exact hs)) h
+
+/-- the offending item is still waiting in `rest` and is not a parameter of the module -/
+def LeftInv (it : Item) (us : UState) : Prop := it ∈ us.rest ∧ it.1 ∉ keysOf us.ms.pars
+
+theorem uStep_inv (var : Variant) (it : Item) (us us' : UState) (s : UStep)
+    (hi : LeftInv it us) (h : uStep var us s = .ok us') : LeftInv it us' := by
+  obtain ⟨hr, hp⟩ := hi
+  cases s with
+  | merge => simp only [uStep] at h; injection h with h; subst h; exact ⟨hr, hp⟩
+  | matchPop =>
+      simp only [uStep] at h; injection h with h; subst h
+      refine ⟨?_, hp⟩
+      simp only [List.mem_filter]
+      exact ⟨hr, by simpa using hp⟩
+  | parsUpdate =>
+      simp only [uStep] at h
+      cases hu : updateLeaves var false us.ms.pars us.matched with
+      | error e => simp [hu] at h
+      | ok p1 =>
+          simp only [hu] at h; injection h with h; subst h
+          refine ⟨hr, ?_⟩
+          show it.1 ∉ keysOf p1
+          rw [updateLeaves_false_keys var _ _ _ hu]; exact hp
+  | setMetadata =>
+      simp only [uStep] at h
+      cases hu : setArgs Gen.metadataTypeChecked us Gen.moduleArgs us.ms.metad with
+      | error e => simp [hu] at h
+      | ok m1 => simp only [hu] at h; injection h with h; subst h; exact ⟨hr, hp⟩
+  | timeUpdate =>
+      simp only [uStep] at h
+      cases hu : setArgs false us Gen.timeArgs us.ms.time with
+      | error e => simp [hu] at h
+      | ok m1 => simp only [hu] at h; injection h with h; subst h; exact ⟨hr, hp⟩
+  | leftover a =>
+      simp only [uStep] at h
+      split at h
+      · injection h with h; subst h; exact ⟨hr, hp⟩
+      · cases a <;> first | (injection h with h; subst h; exact ⟨hr, hp⟩) | (simp at h)
+
+theorem leftover_raises (var : Variant) (it : Item) (us : UState) (e : Err)
+    (hi : LeftInv it us) (ha : it.1 ∉ Gen.moduleArgs ++ Gen.timeArgs) :
+    uStep var us (.leftover (.raise e)) = .error e := by
+  have : (us.rest.filter (fun it => !(Gen.moduleArgs ++ Gen.timeArgs).contains it.1)).isEmpty = false := by
+    rw [List.isEmpty_eq_false_iff_exists_mem]
+    exact ⟨it, by simp only [List.mem_filter]; exact ⟨hi.1, by simpa using ha⟩⟩
+  simp only [uStep, this]
+  rfl
+
+theorem uSteps_leftover (var : Variant) (it : Item) (e : Err) (ha : it.1 ∉ Gen.moduleArgs ++ Gen.timeArgs) :
+    ∀ (steps : List UStep) (us : UState), LeftInv it us → UStep.leftover (.raise e) ∈ steps →
+      ∀ us', uSteps var us steps ≠ .ok us'
+  | [], _, _, hm, _ => by simp at hm
+  | s :: rest, us, hi, hm, us' => by
+      simp only [uSteps]
+      cases h1 : uStep var us s with
+      | error e' => simp
+      | ok us1 =>
+          simp only []
+          rcases List.mem_cons.mp hm with hs | hrest
+          · subst hs
+            rw [leftover_raises var it us e hi ha] at h1
+            cases h1
+          · exact uSteps_leftover var it e ha rest us1 (uStep_inv var it us us1 s hi h1) hrest us'
 
 theorem uSteps_error_of_step (var : Variant) (us : UState) (s : UStep) (rest : List UStep) (e : Err)
     (h : uStep var us s = .error e) : uSteps var us (s :: rest) = .error e := by
